@@ -109,6 +109,14 @@ class Gen:
             else:
                 disp = rng.choice([0, 1, 0x7FFFFFFF, 0x80000000, 0xFFFFFFFF, -1, 0x12345678])
             return ["M", d["msz"], seg, 0, 0, 0, 0, 0, disp, 0, 1 if mode == 64 else rng.choice([0, 1])]
+        if d["slot"] == 13:
+            # umonitor: [ds: register in ModRM.rm of the register form]; 67 selects the other address size, a segment override applies
+            acls13 = (3 if strat == "a32" else 4) if mode == 64 else (2 if strat == "a16" else 3)
+            return ["M", d["msz"], rng.choice([0, 0, 5, 6, 2]), acls13, rng.choice([0, 1, 3, 4, 5, 7] + ([8, 12, 13, 15] if mode == 64 else [])), 0, 0, 0, 0, 0, 0]
+        if d["slot"] == 11:
+            # destination of enqcmd / movdir64b: [es: register in ModRM.reg], same address size as the other memory operand
+            acls11 = (3 if strat == "a32" else 4) if mode == 64 else 3
+            return ["M", d["msz"], 0, acls11, rng.choice([0, 1, 3, 5, 7] + ([8, 13, 15] if mode == 64 else [])), 0, 0, 0, 0, 0, 0]
         if d["slot"] == 9:
             # memory addressed by a fixed register (string instructions, maskmovdqu, monitor)
             acls9 = (3 if strat == "a32" else 4) if mode == 64 else (2 if strat == "a16" else 3)
@@ -248,6 +256,12 @@ def build_calls(rows, rng, tier, per_row):
                                 ops.append(["R", cls, i])
                     else:
                         ops.append(g.mem(row, d, mode, strat, compress=(v % 4 == 1 or (v % 4 == 3 and strat == "bcst"))))
+                for k12, d in enumerate(row["ops"]):
+                    if d["slot"] == 12 and k12 > 0 and ops[k12 - 1][0] == "R":
+                        ops[k12 - 1][2] = rng.choice([0, 2, 4, 6])
+                        ops[k12] = ["R", d["cls"], ops[k12 - 1][2] + 1]
+                if any(d["slot"] == 11 for d in row["ops"]) and strat == "a16":
+                    strat = "plain"
                 opt = 0
                 deco = {"lock": 0, "f2": 0, "f3": 0, "k": 0, "z": 0, "rc": -1}
                 extra = "-"
@@ -309,6 +323,12 @@ def build_calls(rows, rng, tier, per_row):
                     calls.append({"mode": mode, "base": base, "row": row["id"], "name": row["name"], "opt": opt, "extra": extra, "ops": vops, "deco": deco,
                                   "strat": strat + ("/impl" if vi == 0 and len(variants) > 1 else ""), "memform": bool(has_mem and memform)})
     calls += pinned_calls(rows)
+    # one-shot state: ~6 % of the calls are issued right after a REFUSED instruction that carried lock+rep options and {k3}, in a
+    # CodeHolder whose error handler does not return (longjmp): nothing of that state may leak into the call
+    for c in calls:
+        if not c.get("base") and rng.random() < 0.06:
+            c["eh"] = True
+            c["strat"] += "/after-refused"
     return calls
 
 
@@ -378,14 +398,54 @@ def pinned_calls(rows):
                             for vops in ([ops] + ([[o for o, d in zip(ops, row["ops"]) if not d["implicit"]]] if any(d["implicit"] for d in row["ops"]) else [])):
                                 out.append({"mode": mode, "base": None, "row": row["id"], "name": row["name"], "opt": 0, "extra": "-", "ops": vops, "deco": dict(d0),
                                             "strat": "pinned-r8-%d.%d" % r8, "memform": memk is not None})
+    # (3) prefix order on the special emit paths (fixed-register memory, register-addressed memory): in 64-bit mode, 32-bit and 64-bit
+    # addressing, a segment override on the operand that takes one, and every free register >= 8, so that override prefixes AND a
+    # REX prefix are needed together (EmitX86OpImplicitMem / EmitX86RFromM emitted REX first)
+    for row in rows:
+        if row["unsupported"] or row["arch"] == 1 or not any(d["slot"] in (9, 11, 13) for d in row["ops"]):
+            continue
+        for acls in (3, 4):
+            for seg in (0, 5):
+                ops = []
+                for k, d in enumerate(row["ops"]):
+                    if d["slot"] == 9:
+                        ops.append(["M", d["msz"], seg if d["immval"] == 1 else 0, acls, d["fixed"], 0, 0, 0, 0, 0, 0])
+                    elif d["slot"] == 11:
+                        ops.append(["M", d["msz"], 0, acls, 15, 0, 0, 0, 0, 0, 0])
+                    elif d["slot"] == 13:
+                        ops.append(["M", d["msz"], seg, acls, 15, 0, 0, 0, 0, 0, 0])
+                    elif d["kind"] == 3:
+                        ops.append(["I", d["immval"] if d["immval"] >= 0 else 1])
+                    elif d["kind"] in (1, 2) and d["slot"] == 2 and any(x["slot"] == 11 for x in row["ops"]):
+                        ops.append(["M", d["msz"], seg, acls, 9, 0, 0, 0, 64, 0, 0])
+                    elif d["kind"] in (0, 2) and d["slot"] != 10:
+                        ops.append(["R", d["cls"], d["fixed"] if d["fixed"] >= 0 else (9 if d["cls"] in (2, 3, 4, 6, 7, 8) else 1)])
+                    else:
+                        ops = None
+                        break
+                if ops is None or len(ops) > 6:
+                    continue
+                for vops in ([ops] + ([[o for o, d in zip(ops, row["ops"]) if not d["implicit"]]] if any(d["implicit"] for d in row["ops"]) else [])):
+                    out.append({"mode": 64, "base": None, "row": row["id"], "name": row["name"], "opt": 0, "extra": "-", "ops": vops, "deco": dict(d0),
+                                "strat": "pinned-prefix-order-a%d-seg%d" % (acls, seg), "memform": True})
     return out
 
 
 def harness_line(c):
-    toks = [("%d@%d" % (c["mode"], c["base"])) if c.get("base") else "%d" % c["mode"], c["name"], "%x" % c["opt"], c["extra"]]
+    toks = [("%d@%d" % (c["mode"], c["base"])) if c.get("base") else ("%d!" % c["mode"]) if c.get("eh") else "%d" % c["mode"], c.get("hname", c["name"]), "%x" % c["opt"], c["extra"]]
     for o in c["ops"]:
         toks += [str(t) for t in o]
     return " ".join(toks)
+
+
+# the x87 "wait" forms: fstsw = fwait (9B) + fnstsw, ... (db/isa_x86.json writes them as rows with a 9B prefix; the structural decoder
+# sees two instructions).  Every call generated for an fn* row is issued a second time under the wait mnemonic: the assembler must
+# answer 9B followed by bytes that denote the fn* call.
+WAIT_FORMS = {"fnclex": "fclex", "fninit": "finit", "fnsave": "fsave", "fnstcw": "fstcw", "fnstenv": "fstenv", "fnstsw": "fstsw"}
+
+
+def strip_wait(c, hb):
+    return hb[2:] if c.get("wait9b") and hb.startswith("9b") else hb
 
 
 def judge_line(c, hexbytes):
@@ -534,8 +594,8 @@ def implicit_regs(row, mode):
 
 
 # coverage floors recorded when the check was claimed (pinned tree: 4484 supported rows, ~4180 rows with a verified call per quick run)
-MIN_SUPPORTED_ROWS = 4480
-MIN_VERIFIED_ROWS = 4000
+MIN_SUPPORTED_ROWS = 4545
+MIN_VERIFIED_ROWS = 4150
 
 ALIAS_FILE = os.path.join(vlib.VERIF, "corpus", "C01_llvm_alias.txt")
 
@@ -578,6 +638,15 @@ def llvm_compare(c, row, text, nbytes, hexbytes, aliases):
     regs |= set("st(%s)" % n for n in re.findall(r"\bst\((\d)\)", rest))
     exp = expected_regs(c, row)
     impl = implicit_regs(row, c["mode"])
+    if any(d13["slot"] == 13 for d13 in row["ops"]):
+        exp = set(x for x in exp if x not in SREG[1:])    # llvm-mc prints the bare register; the segment prefix is judged by the model
+        regs = set(x for x in regs if x not in SREG[1:])
+    for k12, d12 in enumerate(row["ops"]):
+        if d12["slot"] == 12 and k12 < len(c["ops"]) and c["ops"][k12][0] == "R":
+            # vp2intersect: llvm-mc prints only the even register of the k pair
+            nm12 = reg_name(c["ops"][k12][1], c["ops"][k12][2])
+            if nm12 not in [reg_name(o[1], o[2]) for j, o in enumerate(c["ops"]) if j != k12 and o[0] == "R"]:
+                exp = set(x for x in exp if x != nm12)
     if any(d["cls"] == 13 for d in row["ops"]) or c["name"].startswith("f"):
         # x87: st(0) is printed as `st`, implied or omitted depending on the mnemonic; only st(1..7) are compared
         regs.discard("st(0)"); exp = set(x for x in exp if x != "st(0)"); impl.discard("st(0)")
@@ -587,7 +656,7 @@ def llvm_compare(c, row, text, nbytes, hexbytes, aliases):
     if has9:
         # fixed-register memory operands: llvm-mc prints es:[rdi] / omits implied operands; only a requested override is compared
         for o in c["ops"]:
-            if o[0] == "M" and o[2] and (SREG[o[2]] + ":[" + reg_name(o[3], o[4])) not in rest:
+            if o[0] == "M" and o[2] and "[" in rest and (SREG[o[2]] + ":[" + reg_name(o[3], o[4])) not in rest:     # (clzero, monitor: no operand printed)
                 probs.append(("segment", "segment override %s requested, llvm-mc: %s" % (SREG[o[2]], rest)))
     elif c["name"] in ("lsl", "lar", "nop", "movsxd"):
         pass    # llvm-mc prints the 16-bit name of the source register / drops the ignored reg field of the long nop
@@ -605,7 +674,9 @@ def llvm_compare(c, row, text, nbytes, hexbytes, aliases):
         probs.append(("rounding", "unexpected rounding/sae"))
     if d["lock"] != (1 if "lock" in pref else 0):
         probs.append(("lock", "lock prefix"))
-    for o in c["ops"]:
+    for k11, o in enumerate(c["ops"]):
+        if k11 < len(row["ops"]) and row["ops"][k11]["slot"] in (11, 13):
+            continue        # [es: register in ModRM.reg]: llvm-mc prints the register; it is compared with the register set above
         if o[0] == "M" and not has9:
             mm = re.search(r"\[([^\]]*)\]", rest)
             if not mm:
@@ -667,6 +738,49 @@ def llvm_compare(c, row, text, nbytes, hexbytes, aliases):
     return probs
 
 
+def own_regen(ck, files, order):
+    """Translator tie without vlib.coq_regen's recompilation of EVERY property's gen files: if the regenerated texts equal the
+    committed coq/gen files return None (fast path); otherwise compile only C01's files (in `order`) in a scratch directory that
+    is then mapped to VerifGen for Properties_C01.v and the extraction.  Returns (gen_dir, failed_files, log)."""
+    import shutil
+    gen = os.path.join(vlib.COQ, "gen")
+    if all(os.path.exists(os.path.join(gen, n)) and open(os.path.join(gen, n)).read() == t for n, t in files.items()):
+        return None
+    wgen = os.path.join(ck.work, "gen_c01")
+    shutil.rmtree(wgen, ignore_errors=True)
+    os.makedirs(wgen)
+    failed, log = [], ""
+    own_regen.removed = {}
+    for n in order:
+        text = files[n]
+        removed = []
+        for attempt in range(7):
+            open(os.path.join(wgen, n), "w").write(text)
+            rc, out, err = vlib.sh(["coqc", "-Q", os.path.join(vlib.COQ, "theories"), "Verif", "-Q", wgen, "VerifGen", "-w", "-all", os.path.join(wgen, n)],
+                                   cwd=wgen, timeout=1500)
+            if rc == 0:
+                break
+            log += (out + err)[-1500:]
+            # drop exactly the lemma that failed (and, next round, the lemmas that used it) so that every OTHER lemma of the file is
+            # still checked and Properties_C01.v reports precisely the theorems that no longer hold
+            m = re.search(r"line (\d+), characters", out + err)
+            lines = text.split("\n")
+            k = int(m.group(1)) - 1 if m else -1
+            while 0 <= k < len(lines) and not lines[k].startswith("Lemma "):
+                k -= 1
+            if k < 0 or k >= len(lines):
+                break
+            e = k
+            while e < len(lines) and "Qed." not in lines[e]:
+                e += 1
+            removed.append(lines[k].split()[1])
+            text = "\n".join(lines[:k] + ["(* lemma %s removed: it failed *)" % lines[k].split()[1]] * (e - k + 1) + lines[e + 1:])
+        if rc != 0 or removed:
+            failed.append(n)
+        own_regen.removed[n] = (removed, rc == 0)
+    return wgen, failed, log
+
+
 # ------------------------------------------------------------------ main
 def run(ck):
     rng = random.Random(ck.seed)
@@ -676,24 +790,26 @@ def run(ck):
     dumper = ck.build_harness("c01dump", ["c01_dump.cpp"])
     tabs, insts = c01_tables.dump(dumper)
     ttext, tinfo = c01_tables.coq_text(tabs, insts, names, rows)
-    regen = ck.coq_regen({"IsaX86Db.v": text, "X86Tables.v": ttext})
+    th_failed = ck.coq_make(["theories/X86/X86Denote.vo", "theories/X86/X86DbCheck.vo", "theories/X86/X86Proofs.vo", "theories/X86/X86TablesSpec.vo",
+                             "theories/X86/X86UniqueProofs.vo", "theories/X86/X86JudgeProofs.vo"])
+    regen = own_regen(ck, {"IsaX86Db.v": text, "X86Tables.v": ttext}, ["IsaX86Db.v", "X86Tables.v"])
     gen_dir = None
     if regen is not None:
         gen_dir, failed, log = regen
-        ck.log("database changed: regenerated IsaX86Db.v recompiled, failed: %s" % failed)
+        ck.log("database changed: regenerated IsaX86Db.v recompiled, failed: %s %s" % (failed, own_regen.removed))
         if failed:
             ck.violation("C01/gen-reflection/" + "+".join(failed), "the regenerated %s no longer pass their reflection lemmas (ISA database well-formedness / AsmJit table "
-                         "specifications / table-vs-database agreement): %s" % (failed, log[-800:]),
+                         "specifications / table-vs-database agreement); failing lemmas: %s; %s"
+                         % (failed, {n: v[0] for n, v in own_regen.removed.items() if v[0]}, log[-800:]),
                          {"broken": "reflection lemmas of coq/gen/%s" % failed, "log": log[-2000:]}, no_input=True)
-    if regen is not None and "IsaX86Db.v" in failed:
+    if regen is not None and "IsaX86Db.v" in failed and not own_regen.removed.get("IsaX86Db.v", ([], False))[1]:
         # the search phase still needs an executable model of the NEW database: recompile the data without the failing lemmas
         strip = lambda t: re.sub(r"(?s)\nLemma [^\n]*?:.*?Qed\.\n", "\n", t)
-        regen2 = ck.coq_regen({"IsaX86Db.v": strip(text) if "IsaX86Db.v" in failed else text,
-                               "X86Tables.v": "From Coq Require Import ZArith.\n" if "X86Tables.v" in failed or "IsaX86Db.v" in failed else ttext})
+        regen2 = own_regen(ck, {"IsaX86Db.v": strip(text), "X86Tables.v": "From Coq Require Import ZArith.\n"}, ["IsaX86Db.v", "X86Tables.v"])
         if regen2 is not None and "IsaX86Db.v" not in regen2[1]:
             gen_dir = regen2[0]
-    failed = ck.coq_make(["theories/X86/X86Denote.vo", "theories/X86/X86DbCheck.vo", "theories/X86/X86Proofs.vo", "theories/X86/X86TablesSpec.vo",
-                          "gen/IsaX86Db.vo", "gen/X86Tables.vo"])
+    # the committed snapshots are compiled only when they are the ones used (fast path)
+    failed = (th_failed or []) + ((ck.coq_make(["gen/IsaX86Db.vo", "gen/X86Tables.vo"]) or []) if regen is None else [])
     if failed:
         ck.violation("C01/coq-build", "the Coq development no longer builds: %s %s" % (failed, getattr(ck, "coq_log", "")[-600:]),
                      {"broken": "coq build of %s" % failed}, no_input=True)
@@ -719,7 +835,7 @@ def run(ck):
         print("call :", line)
         print("impl :", a)
         if a.startswith("OK"):
-            hb = a.split()[1] if len(a.split()) == 3 else ""
+            hb = strip_wait(c, a.split()[1] if len(a.split()) == 3 else "")
             print("model:", vlib.sh([model], inp=judge_line(c, hb) + "\n")[1].strip())
             ll = llvm_decode([[int(hb[i:i + 2], 16) for i in range(0, len(hb), 2)]], c["mode"])
             print("llvm :", ll)
@@ -732,6 +848,12 @@ def run(ck):
     if os.path.exists(corpus):
         pre = [json.loads(l) for l in open(corpus) if l.strip() and not l.startswith("#")]
         calls = pre + calls
+    waits = []
+    for c in calls:
+        if c["name"] in WAIT_FORMS and not c.get("wait9b"):
+            c2 = dict(c); c2["hname"] = WAIT_FORMS[c["name"]]; c2["wait9b"] = True
+            waits.append(c2)
+    calls = calls + waits
     name_ids = {n: i for i, n in enumerate(names)}
     for c in calls:
         c["name_id"] = name_ids.get(c["name"], -1)
@@ -742,23 +864,37 @@ def run(ck):
         ck.violation("C01/harness-crash", "harness failed: %s" % (ans,), {"detail": str(ans), "broken": "harness"}, no_input=True)
         ans = ["BAD"] * len(calls)
     # answer "OK <hex> <start>"; an instruction that appends nothing answers "OK <start>"
-    acc = [(c, a.split()[1] if len(a.split()) == 3 else "") for c, a in zip(calls, ans) if a.startswith("OK")]
+    acc = [(c, a.split()[1] if len(a.split()) == 3 else "", int(a.split()[-1])) for c, a in zip(calls, ans) if a.startswith("OK")]
+    acc2 = []
+    for c, hb, st0 in acc:
+        if c.get("wait9b") and not hb.startswith("9b"):
+            if re.match(r"^(26|2e|36|3e|64|65|67)+9b", hb):
+                # the override prefixes of the memory operand precede FWAIT: they apply to FWAIT and are lost for the instruction
+                ck.violation("C01/wait-form-override-prefix-before-fwait/%s" % c["hname"],
+                             "accepted call `%s` appended bytes %s: the segment / address-size override prefixes come before fwait (9B), so they "
+                             "belong to fwait and the memory operand of the following instruction is read without them" % (harness_line(c), hb),
+                             {"call": c, "impl": hb})
+            else:
+                ck.violation("C01/%s/wait-prefix-missing" % c["hname"], "accepted call `%s` appended bytes %s, which do not start with fwait (9B)"
+                             % (harness_line(c), hb), {"call": c, "impl": hb})
+            continue
+        acc2.append((c, hb, st0))
+    starts = {k: t[2] for k, t in enumerate(acc2)}
+    acc = [(c, hb) for c, hb, _ in acc2]
+    wait_forms_verified = len([1 for c, hb in acc if c.get("wait9b") and hb.startswith("9b")])
+    acc = [(c, strip_wait(c, hb)) for c, hb in acc]
     rejected = len([a for a in ans if a.startswith("ERR")])
     dirty = [(c, a) for c, a in zip(calls, ans) if a.startswith("ERR") and a.split()[2] != "0"]
     noinst = sorted(set(c["name"] for c, a in zip(calls, ans) if a == "NOINST"))
     ck.log("accepted %d, rejected %d, unknown mnemonics %d" % (len(acc), rejected, len(noinst)))
     for c, a in dirty[:5]:
         ck.violation("C01/%s/bytes-appended-on-error" % c["name"], "rejected call appended bytes: %s -> %s" % (harness_line(c), a), {"call": c, "impl": a})
-    starts = {}
-    for k, (c, a) in enumerate((c, a) for c, a in zip(calls, ans) if a.startswith("OK")):
-        sp = a.split()
-        starts[k] = int(sp[-1])
     jl = [judge_line(c, hb) for c, hb in acc]
     # known base address: the same absolute address may be encoded RIP-relative; judge that reading too
     alt = {}
     for k, (c, hb) in enumerate(acc):
         if c.get("base"):
-            end = c["base"] + starts[k] + len(hb) // 2
+            end = c["base"] + starts[k] + len(hb) // 2 + (1 if c.get("wait9b") else 0)
             ops2 = []
             okv = False
             for o in c["ops"]:
@@ -828,7 +964,7 @@ def run(ck):
             lprobs = llvm_compare(c, row, ltext, lbytes, hb, aliases)
             if linsts != 1:
                 lprobs.append(("count", "llvm-mc decodes %d instructions" % linsts))
-        key_form = "%s/%s" % (c["name"], "/".join("R%d" % o[1] if o[0] == "R" else ("M" if o[0] == "M" else "L" if o[0] == "L" else "I") for o in c["ops"]))
+        key_form = "%s/%s" % (c.get("hname", c["name"]), "/".join("R%d" % o[1] if o[0] == "R" else ("M" if o[0] == "M" else "L" if o[0] == "L" else "I") for o in c["ops"]))
         enc_kind = enc_kind_of(hb)
         strata[c["strat"]] = strata.get(c["strat"], 0) + 1
         if vcode == "0":
@@ -882,6 +1018,11 @@ def run(ck):
                     if r.get("kind") == 3:
                         ck._evex_sigs.setdefault(r["name"], set()).add(sig_of(r))
             sig_of, evex_sigs = ck._sig_of, ck._evex_sigs
+            # a VEX operand form is covered by an EVEX form when each operand is the same, or the EVEX operand is reg-or-mem (kind 2)
+            # and the VEX one its memory-only (kind 1) or register-only (kind 0, same class) restriction
+            sig_covered = lambda sv, se: len(sv) == len(se) and all(
+                v[2] == e[2] and ((v[0] == e[0] and v[1] == e[1]) or (e[0] == 2 and (v[0] == 1 or (v[0] == 0 and v[1] == e[1]))))
+                for v, e in zip(sv, se))
             evex_names = getattr(ck, "_evex_names", None)
             if evex_names is None:
                 evex_names = ck._evex_names = set(r["name"] for r in rows if r.get("kind") == 3)
@@ -889,14 +1030,23 @@ def run(ck):
             is16call = c["name"] in ("call", "jmp") and any((o[0] == "R" and o[1] == 2) or (o[0] == "M" and o[1] == 2) for o in c["ops"])
             a16ops = [o for o in c["ops"] if o[0] == "M" and (o[3] == 2 or o[5] == 2) and o[8] != 0]
             bp16 = [o for o in c["ops"] if o[0] == "M" and o[3] == 2 and o[4] == 5 and o[5] == 0 and o[8] == 0]
-            if is16call:
+            if c.get("eh") and ("k3" in vcands or "l1." in vcands or "f31" in vcands) and c["deco"]["k"] != 3:
+                key = "C01/one-shot-state-leaks-after-refused-instruction"      # options / extra register of a refused call reach the next one
+            elif is16call:
                 key = "C01/call-jmp-16bit-operand/%s" % c["name"]
             elif re.match(r"^(26|2e|36|3e|64|65|66|67|f0|f2|f3)*4[0-9a-f](26|2e|36|3e|64|65|67)", hb):
-                key = "C01/rex-before-override-prefix"      # repaired by fixes/C01-implicit-mem-rex-order.patch
+                # EmitX86OpImplicitMem: repaired by fixes/C01-implicit-mem-rex-order.patch; EmitX86RFromM (umonitor): fixes/C01-rfromm-rex-order.patch
+                key = "C01/rex-before-override-prefix" + ("/umonitor" if c["name"] == "umonitor" else "")
+            elif c["name"] in ("maskmovq", "maskmovdqu", "vmaskmovdqu", "monitor", "monitorx") and any(o[0] == "M" and (o[2] or o[3] == (3 if c["mode"] == 64 else 2)) for o in c["ops"]) \
+                    and not re.match(r"^(26|2e|36|3e|64|65|67)", hb):
+                # the explicit [zdi] / [zax] operand's segment / address-size override is dropped
+                key = "C01/explicit-fixed-memory-operand-override-dropped/%s" % c["name"]
+            elif c["name"] in ("lcall", "ljmp") and len(c["ops"]) == 2 and c["ops"][1][0] == "I" and c["ops"][1][1] < 0:
+                key = "C01/far-immediate-negative-offset/%s" % c["name"]     # repaired by fixes/C01-far-immediate-offset.patch
             elif st == "ok" and lprobs == [] and linsts == 1:
                 # llvm-mc reads the bytes exactly as the call: the database row is what disagrees
                 key = "C01/db-disagrees-with-asmjit-and-llvm/%s/%s" % (c["name"], enc_kind)
-            elif (c["opt"] & OPT["evex"]) and row is not None and row["kind"] == 1 and sig_of(row) not in evex_sigs.get(c["name"], ()):
+            elif (c["opt"] & OPT["evex"]) and row is not None and row["kind"] == 1 and not any(sig_covered(sig_of(row), es) for es in evex_sigs.get(c["name"], ())):
                 # the operand form exists only VEX-encoded (vcmppd xmm,xmm,xmm,imm; VEX gathers with a vector mask, ...)
                 key = "C01/evex-option-on-vex-only-form/%s" % c["name"]
             elif c["deco"]["z"] and c["ops"] and c["ops"][0][0] == "M":
@@ -947,7 +1097,7 @@ def run(ck):
          "unsupported": {k: {"rows": len(v), "mnemonics": sorted(set(v))[:40]} for k, v in sorted(uns.items())},
          "asmjit_tables": tinfo,
          "db_rows_repaired": sorted(set("%s [%s]" % (r["name"], r["repaired"]) for r in rows if r.get("repaired")))[:60], "input_distribution": strata, "oracle": stats, "known_base_address_calls": len([1 for c, _ in acc if c.get("base")]),
-         "known_base_address_calls_encoded_rip_relative": rip_readings, "mnemonics_llvm_mc_14_never_decodes": sorted(llvm_never)[:300], "database_regenerated": regen is not None},
+         "known_base_address_calls_encoded_rip_relative": rip_readings, "x87_wait_form_calls_verified_as_9B_plus_fn_form": wait_forms_verified, "mnemonics_llvm_mc_14_never_decodes": sorted(llvm_never)[:300], "database_regenerated": regen is not None},
         assumptions=["the C++ harness calls the real x86::Assembler::_emit of /repo's working tree with DiagnosticOptions::kValidateAssembler",
                      "theorems are about the Gallina structural encoder/decoder; that AsmJit's bytes are decodable to the call is established on the generated calls only",
                      "the structural decoding rules (X86Model.v) and the disp8*N table (X86Denote.v) were written by hand from the Intel SDM; llvm-mc 14 cross-checks them on every accepted encoding it knows",
